@@ -1,4 +1,4 @@
-import Sourmash.Lemmas.Downsample
+import Sourmash.Lemmas.DownsampleCmp
 /-! Property C04 — downsampling commutes with sketching and with every comparison.
 
 Property theorems only (helper lemmas: `Lemmas/Downsample*.lean`, `Lemmas/SetOps*.lean`), about the
@@ -52,5 +52,160 @@ example : (SetOps.Sk.new 0 21 .dna 42 true 5).maxHash = 0 := rfl
 /-- the same-scaled request is the identity -/
 theorem ds_same (k : Kind) (x : Sk) : downsampleScaled k x x.scaled = .ok x := by
   simp [downsampleScaled]
+
+
+/-- an empty sketch at scaled = 1000 -/
+def exE : Sk := { num := 0, maxHash := 18446744073709552, ksize := 21, seed := 42, mol := .dna, mins := [], abunds := some [] }
+theorem exE_sc : Sc exE := ⟨⟨by decide, by intro ab h; cases h; rfl⟩, rfl, by decide⟩
+
+/-- **T-ds_exact** (second half): if `x` is the sketch of a multiset of insertions made at ceiling
+`M = e.maxHash`, downsampling it to `s'` gives exactly the sketch of the *same insertions* made
+directly at `s'` (same parameters, ceiling `max_hash_for_scaled s'`).
+Hypothesis `hmono` is the instance `max_hash_for_scaled s' ≤ M` of C14's antitonicity theorem
+(`Sourmash.C14.maxHash_antitone`), taken here as an explicit hypothesis. -/
+theorem ds_exact_sketch (k : Kind) (e : Sk) (items : List (Nat × Nat)) (s' : Nat)
+    (he : Sc e) (hemp : e.mins = []) (hpos : ∀ p ∈ items, p.2 ≠ 0)
+    (h0 : e.scaled ≠ 0) (hlt : e.scaled < s') (hM : maxHashForScaled s' ≠ 0)
+    (hmono : maxHashForScaled s' ≤ e.maxHash) :
+    downsampleScaled k (e.addManyAb k items) s' =
+      .ok (({ e with maxHash := maxHashForScaled s' } : Sk).addManyAb k items) := by
+  have hx := fold_is_scaled k e he hemp items hpos
+  have hmh : (e.addManyAb k items).maxHash = e.maxHash := (fold_scaled k items e he hpos).2.1
+  have hsc : (e.addManyAb k items).scaled = e.scaled := by
+    show scaledForMaxHash _ = scaledForMaxHash _; rw [hmh]
+  rw [downsample_exact k hx (by rw [hsc]; exact h0) (by rw [hsc]; exact hlt) hM,
+    below_fold k e he hemp _ hM hmono items hpos]
+example : Sc exE ∧ exE.mins = [] ∧ exE.scaled ≠ 0 ∧ exE.scaled < 2000 ∧ maxHashForScaled 2000 ≠ 0 ∧
+    maxHashForScaled 2000 ≤ exE.maxHash := ⟨exE_sc, rfl, by decide, by decide, by decide, by decide⟩
+
+/-- **T-ds_idem**: downsampling the result again to the same value changes nothing.
+Hypothesis `hrt` is the round trip `scaled_for_max_hash (max_hash_for_scaled s') = s'`, C14's theorem
+`Sourmash.C14.roundtrip` (valid for `1 ≤ s' ≤ 2³¹`), taken as an explicit hypothesis: without it the
+downsampled sketch would report another scaled value and the second call would not be the identity. -/
+theorem ds_idem (k : Kind) (x r : Sk) (s' : Nat) (hx : x.Scaled) (hM : maxHashForScaled s' ≠ 0)
+    (hrt : scaledForMaxHash (maxHashForScaled s') = s')
+    (h : downsampleScaled k x s' = .ok r) : downsampleScaled k r s' = .ok r := by
+  by_cases h1 : x.scaled = s' ∨ x.scaled = 0
+  · have : r = x := by simp [downsampleScaled, h1] at h; exact h.symm
+    subst this; exact h
+  · by_cases h2 : x.scaled > s'
+    · simp [downsampleScaled, h1, h2] at h
+    · rw [downsample_exact k hx (by omega) (by omega) hM] at h
+      cases h
+      have : (belowSk (maxHashForScaled s') x).scaled = s' := hrt
+      simp [downsampleScaled, this]
+example : exS.Scaled ∧ maxHashForScaled 2000 ≠ 0 ∧ scaledForMaxHash (maxHashForScaled 2000) = 2000 :=
+  ⟨exS_scaled, by decide, by decide⟩
+
+/-- **T-ds_compose** (`s ≤ s' ≤ s''`): going through an intermediate value gives the same sketch as
+going directly.  Hypotheses from C14: `hrt` (round trip at `s'`) and `hmono`
+(`max_hash_for_scaled s'' ≤ max_hash_for_scaled s'`, antitonicity). -/
+theorem ds_compose (k : Kind) (x r1 : Sk) (s' s'' : Nat) (hx : x.Scaled) (h0 : x.scaled ≠ 0)
+    (h12 : x.scaled ≤ s') (h23 : s' ≤ s'')
+    (hM : maxHashForScaled s'' ≠ 0) (hmono : maxHashForScaled s'' ≤ maxHashForScaled s')
+    (hrt : scaledForMaxHash (maxHashForScaled s') = s')
+    (h1 : downsampleScaled k x s' = .ok r1) :
+    downsampleScaled k r1 s'' = downsampleScaled k x s'' := by
+  have hM' : maxHashForScaled s' ≠ 0 := by omega
+  by_cases e1 : x.scaled = s'
+  · have : r1 = x := by simp [downsampleScaled, e1] at h1; exact h1.symm
+    subst this; rfl
+  · rw [downsample_exact k hx h0 (by omega) hM'] at h1
+    cases h1
+    have hsc : (belowSk (maxHashForScaled s') x).scaled = s' := hrt
+    by_cases e2 : s' = s''
+    · subst e2
+      rw [downsample_exact k hx h0 (by omega) hM']
+      simp [downsampleScaled, hsc]
+    · rw [downsample_exact k (belowSk_scaled hx hM') (by rw [hsc]; omega) (by rw [hsc]; omega) hM,
+        belowSk_belowSk hx.1 hmono, downsample_exact k hx h0 (by omega) hM]
+example : exS.Scaled ∧ exS.scaled ≠ 0 ∧ exS.scaled ≤ 2000 ∧ 2000 ≤ 10000 ∧ maxHashForScaled 10000 ≠ 0 ∧
+    maxHashForScaled 10000 ≤ maxHashForScaled 2000 ∧ scaledForMaxHash (maxHashForScaled 2000) = 2000 :=
+  ⟨exS_scaled, by decide, by decide, by decide, by decide, by decide, by decide⟩
+
+/-- **T-ds_merge**: downsampling commutes with merge — `ds (a ∪ b) = ds a ∪ ds b`, hashes and
+abundances. -/
+theorem ds_merge (k : Kind) (a b : Sk) (s' : Nat) (ha : a.Scaled) (hb : b.Scaled)
+    (hc : checkCompatible a b = .ok ()) (h0 : a.scaled ≠ 0) (hlt : a.scaled < s')
+    (hM : maxHashForScaled s' ≠ 0) :
+    (a.merge k b >>= fun m => downsampleScaled k m s') =
+      (do let a' ← downsampleScaled k a s'
+          let b' ← downsampleScaled k b s'
+          a'.merge k b') := by
+  obtain ⟨c1, c2, c3, c4⟩ := (checkCompatible_ok_iff a b).1 hc
+  have hsb : b.scaled = a.scaled := by show scaledForMaxHash _ = scaledForMaxHash _; rw [c3]
+  have hsm : (mergeSpec a b).scaled = a.scaled := rfl
+  have hc' : checkCompatible (belowSk (maxHashForScaled s') a) (belowSk (maxHashForScaled s') b) = .ok () :=
+    (checkCompatible_ok_iff _ _).2 ⟨c1, c2, rfl, c4⟩
+  rw [merge_ok k ha.1 hb.1 hc, downsample_exact k ha h0 hlt hM,
+    downsample_exact k hb (by rw [hsb]; exact h0) (by rw [hsb]; exact hlt) hM]
+  show downsampleScaled k (mergeSpec a b) s' = (belowSk _ a).merge k (belowSk _ b)
+  rw [downsample_exact k (mergeSpec_scaled ha hb hc) (by rw [hsm]; exact h0) (by rw [hsm]; exact hlt) hM,
+    merge_ok k (belowSk_wf _ ha.1) (belowSk_wf _ hb.1) hc', belowSk_mergeSpec _ ha.1 hb.1 ha.2.1]
+example : exS.Scaled ∧ checkCompatible exS exS = .ok () ∧ exS.scaled ≠ 0 ∧ exS.scaled < 2000 ∧
+    maxHashForScaled 2000 ≠ 0 := ⟨exS_scaled, by simp [checkCompatible], by decide, by decide, by decide⟩
+
+/-- **T-ds_isect**: downsampling commutes with intersection — the intersection of the downsampled
+sketches is the common hashes under the new ceiling, and its union size counts the union under the new
+ceiling. -/
+theorem ds_isect (k : Kind) (a b : Sk) (s' : Nat) (ha : a.Scaled) (hb : b.Scaled)
+    (hc : checkCompatible a b = .ok ()) (h0 : a.scaled ≠ 0) (hlt : a.scaled < s')
+    (hM : maxHashForScaled s' ≠ 0) :
+    (do let a' ← downsampleScaled k a s'
+        let b' ← downsampleScaled k b s'
+        intersection k a' b') =
+      .ok (below (maxHashForScaled s') (inter a.mins b.mins),
+           (below (maxHashForScaled s') (union a.mins b.mins)).length) := by
+  obtain ⟨c1, c2, c3, c4⟩ := (checkCompatible_ok_iff a b).1 hc
+  have hsb : b.scaled = a.scaled := by show scaledForMaxHash _ = scaledForMaxHash _; rw [c3]
+  have hc' : checkCompatible (belowSk (maxHashForScaled s') a) (belowSk (maxHashForScaled s') b) = .ok () :=
+    (checkCompatible_ok_iff _ _).2 ⟨c1, c2, rfl, c4⟩
+  rw [downsample_exact k ha h0 hlt hM,
+    downsample_exact k hb (by rw [hsb]; exact h0) (by rw [hsb]; exact hlt) hM]
+  show intersection k (belowSk _ a) (belowSk _ b) = _
+  rw [intersection_scaled k (belowSk_wf _ ha.1).1 (belowSk_wf _ hb.1).1 ha.2.1 hc']
+  show Except.ok (inter (below _ a.mins) (below _ b.mins), unionSize (below _ a.mins) (below _ b.mins)) = _
+  rw [below_inter, unionSize_below _ ha.1.1 hb.1.1]
+example : exS.Scaled ∧ checkCompatible exS exS = .ok () ∧ exS.scaled ≠ 0 ∧ exS.scaled < 2000 ∧
+    maxHashForScaled 2000 ≠ 0 := ⟨exS_scaled, by simp [checkCompatible], by decide, by decide, by decide⟩
+
+/-- **T-cmp_ds** (`count_common`): the call with `downsample = true` returns what `count_common(_, false)`
+returns on copies explicitly downsampled to `m = max(scaled a, scaled b)` — the same count or the same
+error.  No hypothesis: the model takes the operands by value and returns no new state for them, so
+"never modifies its operands" is the absence of any write in `countCommon` (observed on the real code by
+the `obs` lines of the harness). -/
+theorem cmp_ds_count (k : Kind) (a b : Sk) :
+    countCommon k a b true =
+      (do let a' ← downsampleScaled k a (max a.scaled b.scaled)
+          let b' ← downsampleScaled k b (max a.scaled b.scaled)
+          countCommon k a' b' false) :=
+  countCommon_ds k a b
+
+/-- **T-cmp_ds** (`similarity`): likewise for the integer data `similarity` computes before its float
+tail — the Jaccard pair (common, size) resp. the triple (Σaᵢbᵢ, Σaᵢ², Σbᵢ²) — on the explicitly
+downsampled copies, taken in the order in which the code compares them (larger-scaled operand first). -/
+theorem cmp_ds_similarity (k : Kind) (a b : Sk) (ig : Bool) :
+    similarity k a b ig true =
+      (do let a' ← downsampleScaled k a (max a.scaled b.scaled)
+          let b' ← downsampleScaled k b (max a.scaled b.scaled)
+          if a.scaled < b.scaled then similarityPlain k b' a' ig else similarityPlain k a' b' ig) :=
+  similarity_ds k a b ig
+
+/-- … and that order is immaterial: the Jaccard pair of two scaled sketches is symmetric, the angular
+triple only exchanges its two norms. -/
+theorem cmp_order_irrelevant (k : Kind) (a b : Sk) (ha : SInc a.mins) (hb : SInc b.mins)
+    (hna : a.num = 0) (hnb : b.num = 0) :
+    jaccardParts k a b = jaccardParts k b a ∧ angularParts b a = (angularParts a b).map SimParts.swap :=
+  ⟨jaccardParts_symm k ha hb hna hnb, angularParts_symm a b⟩
+example : SInc exS.mins ∧ exS.num = 0 := ⟨exS_scaled.1.1, rfl⟩
+
+/-- **T-select_ds**: `Signature::select` with a scaled request `sel` (a `u32`) retains the MinHash
+sketches with `0 < scaled() ≤ sel` and delivers `downsample_scaled(sel)` of each of them (failing with
+the first error, if any). -/
+theorem select_ds (k : Kind) (sks : List Sk) (sel : Nat) (hsel : sel < 2 ^ 32) :
+    selectScaled k sks sel =
+      (sks.filter (fun s => s.scaled ≠ 0 ∧ s.scaled ≤ sel)).mapM (fun s => downsampleScaled k s sel) :=
+  selectScaled_eq k sks sel hsel
+example : (2000 : Nat) < 2 ^ 32 := by decide
 
 end Sourmash.C04
